@@ -383,7 +383,7 @@ def Val.isBool : Val N → Bool
   | _ => false
 
 def Val.isList : Val N → Bool
-  | .list _ => true
+  | .list _ _ _ => true
   | _ => false
 
 def Out.isVal : Out N → Bool
@@ -566,9 +566,9 @@ theorem string_comparisons (n1 n2 : Str) (a b : Str) :
   simp [Impl.binOp, Impl.cmpOp, Impl.numOp, Impl.strOp, Val.text]
 
 /-- `notin` is the negation of `in` -/
-theorem notin_is_not_in (n1 n2 : Str) (v : Val N) (vs : Vals N) :
-    Impl.binOp G .notin n1 n2 (.val v) (.val (.list vs)) = .val (.bool (!Vals.has G.C v vs)) ∧
-    Impl.binOp G .isin n1 n2 (.val v) (.val (.list vs)) = .val (.bool (Vals.has G.C v vs)) := by
+theorem notin_is_not_in (n1 n2 : Str) (v : Val N) (a : Nat) (n : Bool) (vs : Vals N) :
+    Impl.binOp G .notin n1 n2 (.val v) (.val (.list a n vs)) = .val (.bool (!Vals.has G.C v vs)) ∧
+    Impl.binOp G .isin n1 n2 (.val v) (.val (.list a n vs)) = .val (.bool (Vals.has G.C v vs)) := by
   simp [Impl.binOp, Impl.listOp]
 
 end Sanity
